@@ -736,14 +736,17 @@ where
         // Store masks from all results
         let mut masks = Vec::<Option<ExtendedMask>>::with_capacity(proofs.len());
 
-        // Get chunks of both the statements and proofs
-        let mut chunks = statements
-            .chunks(MAX_RANGE_PROOF_BATCH_SIZE)
-            .zip(proofs.chunks(MAX_RANGE_PROOF_BATCH_SIZE));
+        // The batch must be consistent as a whole, not only within each chunk
+        RangeProof::verify_statements_and_generators_consistency(statements, proofs)?;
 
-        // If the batch fails, propagate the error; otherwise, store the masks and keep going
-        if let Some((batch_statements, batch_proofs)) = chunks.next() {
-            let mut result = RangeProof::verify(transcripts, batch_statements, batch_proofs, action)?;
+        // Verify each chunk of statements, proofs and transcripts
+        // If a chunk fails, propagate the error; otherwise, store the masks and keep going
+        for ((batch_statements, batch_proofs), batch_transcripts) in statements
+            .chunks(MAX_RANGE_PROOF_BATCH_SIZE)
+            .zip(proofs.chunks(MAX_RANGE_PROOF_BATCH_SIZE))
+            .zip(transcripts.chunks_mut(MAX_RANGE_PROOF_BATCH_SIZE))
+        {
+            let mut result = RangeProof::verify(batch_transcripts, batch_statements, batch_proofs, action)?;
 
             masks.append(&mut result);
         }
